@@ -339,6 +339,22 @@ pub fn prove_line(line: &str) -> String {
         }
     };
     let vb = verifier.to_bytes();
+    // implementation-vs-property (C15), independent of whether the instance proves: the keys compiled from the compressed
+    // description are the keys compiled directly
+    let cmp_early = if routes {
+        crate::prog::DEFAULT_SRC.with(|s| *s.borrow_mut() = parts[1].trim().to_string());
+        match <ProgCircuit as Circuit>::compress() {
+            Ok(bytes) => match Compiler::compile_with_compressed(&pp, &label, &bytes) {
+                Ok((p2, v2)) => {
+                    if p2.to_bytes() == prover.to_bytes() && v2.to_bytes() == vb { " cmp=ok".to_string() } else { " cmp=differ".to_string() }
+                }
+                Err(e) => format!(" cmp=err:{:?}", e).replace(' ', "_").replacen('_', " ", 1),
+            },
+            Err(e) => format!(" cmp=err:{:?}", e).replace(' ', "_").replacen('_', " ", 1),
+        }
+    } else {
+        String::new()
+    };
     let mut hsh = Hasher::new();
     for b in &vb {
         hsh.push_u64(*b as u64);
@@ -385,8 +401,8 @@ pub fn prove_line(line: &str) -> String {
             }
             format!("proof={} pis={} vh={} calls={}{}", bytes_hex(&proof.to_bytes()), show_list(&pis), vh, rng.calls, extra)
         }
-        Err(Error::CircuitUnsatisfied) => format!("err:unsat vh={}", vh),
-        Err(Error::InvalidCircuitSize(_, _)) => format!("err:sizeerr vh={}", vh),
+        Err(Error::CircuitUnsatisfied) => format!("err:unsat vh={}{}", vh, cmp_early),
+        Err(Error::InvalidCircuitSize(_, _)) => format!("err:sizeerr vh={}{}", vh, cmp_early),
         Err(Error::UnsupportedProvingVersion) => format!("err:UnsupportedProvingVersion vh={}", vh),
         Err(e) => format!("err:other:{:?} vh={}", e, vh).replace(' ', "_"),
     }
